@@ -38,6 +38,7 @@ THEOREMS = [
     'Nb.C11.size_ok_int32',
     'Nb.C11.formats_ok',
     'Nb.C11.codes_ok',
+    'Nb.C11.rules_ok',
     'Nb.C11.codec_roundtrip',
     'Nb.C11.serialize_length',
     'Nb.C11.reader_total',
@@ -51,6 +52,7 @@ THEOREMS = [
     'Nb.C11.offset_ok_shipped',
     'Nb.C11.offset_nifti1_f4_orig_counterexample',
     'Nb.C11.no_overlap',
+    'Nb.C11.sizes_only_agrees',
     'Nb.C11.small_offset_rejected',
     'Nb.C11.single_roundtrip_stored',
     'Nb.C11.single_roundtrip',
@@ -63,22 +65,39 @@ THEOREMS = [
     'Nb.C11.ext_gap_fixed_example',
 ]
 ASSUMPTIONS = [
-    'hand-written Lean model (Model/C11.lean) of NiftiExtension.write_to, Nifti1Extensions.write_to/from_fileobj, '
-    'Nifti1Header.write_to/from_fileobj (extender, extsize, minimum-offset rule), _chk_offset and the seek-then-write '
-    'of AnalyzeImage.to_file_map; tied to the code by the differential correspondence (raw bytes written + values '
-    'loaded) on every case of this run',
-    'Generated/C11.lean (get_sizeondisk expression, header sizes/offsets, extension code table) is produced by the '
-    'Python translator in harness/props/c11.py regen() from the working tree (trusted translator: + - * // % by '
-    'positive literal, len(), comparisons, conditional expression)',
+    'hand-written Lean model (Model/C11.lean) of the CONTROL FLOW of NiftiExtension.write_to, Nifti1Extensions.write_to/'
+    'from_fileobj, Nifti1Header.write_to/from_fileobj (extender, extsize, minimum-offset rule incl. the float32 '
+    'fill-in repair), _chk_offset and the seek-then-write of AnalyzeImage.to_file_map; tied to the code by the '
+    'differential correspondence (raw bytes written + values loaded) on every case of this run',
+    'Generated/C11.lean is produced by the Python translator in harness/props/c11.py regen() from the working tree: '
+    'the get_sizeondisk expression, the eleven one-line integer rules of reader and writer (loop condition, zero-size '
+    'stop, read count, content-length check, size update, extsize, min_vox_offset, the three offset tests, pad), header '
+    'sizes/offsets, the dtype of the vox_offset field (float32 / int64) and the extension code table (trusted '
+    'translator: + - * // % by positive literal, len(), comparisons, and/or/not, conditional expression; it checks the '
+    'SHAPE of the statements around each rule and fails loudly otherwise)',
+    'float32 precision of the NIfTI-1 vox_offset field is modelled (round-to-nearest-even, nextafter) and compared '
+    'with NumPy on every run (f32 stream) for values below 2^53; above that NumPy converts through float64 (double '
+    'rounding) and the int64 field of NIfTI-2 overflows at 2^63 - outside the model',
     'the fixed-size header block is abstracted to (vox_offset value, endianness); its byte fidelity is C10\'s subject; '
     'the harness decodes the vox_offset field itself with struct at the dtype offset',
     'voxel data are an opaque byte string written at the data offset (dtype coding/scaling is C01/C02); NumPy '
     'int32 conversion (OverflowError outside int32) is modelled as a range check',
-    'extension handler classes (pydicom for code 2, CIFTI-2 XML for code 32) are not modelled: raw content bytes only; '
+    'extension handler classes (pydicom for code 2, CIFTI-2 XML for code 32) are not modelled as codecs: the model sees '
+    'the content bytes at the moment of the save; that the library serialises the CURRENT runtime object (_sync) is '
+    'checked by the hist stream (objects edited in place) through correspondence + oracle, not by a theorem; '
     'code-2 contents are generated with an ASCII VR field so that pydicom\'s sniffing accepts them',
+    'the voff stream replaces the content of an extension by a length-only stand-in and the file by a counting sink '
+    '(real header / extension code otherwise); theorem sizes_only_agrees ties its model side to the full save',
     'file objects are modelled as seekable byte stores with zero fill on seek past the end (BytesIO / POSIX files)',
 ]
-RULE = ('img/edge: extension lists of 0..4 (quick) or 0..6 (thorough) extensions, codes known/unknown/negative/label '
+RULE = ('tail16: last extension of exactly 16 bytes (content 0..9) x NIfTI-1/2 x single/pair x {<,>} x 0-2 extensions in '
+        'front x offset {auto, min, min+16, min+32}; hist: multi-step histories - extensions with a mutable runtime '
+        'object (generic bytearray object, CIFTI-2 header, pydicom Dataset) edited IN PLACE after construction / after '
+        'a real save+load (content grown or shrunk across 16-byte boundaries, optionally after an earlier size query), '
+        'extensions inserted after a reload, header carried to another image class / byte order through from_header, '
+        'then saved; voff: Nifti1Header.write_to on length-only extensions with totals around 2^24..2^33 x explicit '
+        'offsets (exact, +-16, odd, not float32-representable); f32: float32 rounding/successor around powers of two, '
+        'ties, multiples of 16; img/edge: extension lists of 0..4 (quick) or 0..6 (thorough) extensions, codes known/unknown/negative/label '
         'strings/CIFTI/DICOM, content lengths 0..70 (all residues mod 16; sometimes up to 300) with random bytes, '
         'trailing NULs with probability 1/3, x {<,>} x {NIfTI-1,NIfTI-2} x {single,pair} x user vox_offset '
         '(none / minimum / minimum+16k / minimum+odd / below minimum / below header) x route {file_map, bytes, '
@@ -108,9 +127,10 @@ class _Tr:
     Euclidean = Python floor semantics only for positive divisors), unary minus, comparisons (single operator),
     `and`/`or`/`not` inside conditions, conditional expressions.  Anything else raises Untranslatable."""
 
-    def __init__(self):
+    def __init__(self, atoms=None):
         self.params = {}       # source text of len-argument -> parameter name
         self.locals = set()
+        self.atoms = dict(atoms or {})   # source text of a sub-expression -> name of the Lean parameter standing for it
 
     def lit(self, node):
         if isinstance(node, ast.Constant) and type(node.value) is int:
@@ -124,6 +144,8 @@ class _Tr:
         v = self.lit(n)
         if v is not None:
             return f'({v})' if v < 0 else str(v)
+        if ast.unparse(n) in self.atoms:
+            return self.atoms[ast.unparse(n)]
         if isinstance(n, ast.Name):
             if n.id in self.locals:
                 return n.id + '_'
@@ -200,6 +222,106 @@ def translate_sizeondisk():
     return body, ret
 
 
+def _fn_ast(obj):
+    return ast.parse(textwrap.dedent(inspect.getsource(obj))).body[0]
+
+
+def _only(nodes, what):
+    nodes = list(nodes)
+    if len(nodes) != 1:
+        raise Untranslatable(f'expected exactly one {what}, found {len(nodes)}')
+    return nodes[0]
+
+
+def _raises(stmts, exc):
+    return (len(stmts) == 1 and isinstance(stmts[0], ast.Raise) and isinstance(stmts[0].exc, ast.Call)
+            and ast.unparse(stmts[0].exc.func) == exc)
+
+
+def translate_rules():
+    """One-line integer rules of the extension reader / writer, taken from the AST of the working tree.  Each
+    entry: (lean name, parameters, result type, body, python source).  The SHAPE of the surrounding statement
+    (while / if-break / if-not-raise / augmented assignment / if-elif-raise) is checked, anything else is
+    Untranslatable (loud failure)."""
+    from nibabel import nifti1
+    out = []
+
+    def add(name, params, typ, body, node):
+        out.append((name, params, typ, body, ast.unparse(node).split('\n')[0]))
+
+    # ---- Nifti1Extensions.from_fileobj
+    fn = _fn_ast(nifti1.Nifti1Extensions.from_fileobj.__func__)
+    loop = _only([n for n in fn.body if isinstance(n, ast.While)], 'while loop in from_fileobj')
+    if loop.orelse:
+        raise Untranslatable('while-else in from_fileobj')
+    add('readLoopCond', ['size'], 'Bool', 'decide ' + _Tr({'size': 'size'}).cond(loop.test), loop.test)
+    stops = [n for n in loop.body if isinstance(n, ast.If) and len(n.body) == 1 and isinstance(n.body[0], ast.Break)
+             and not n.orelse and 'esize' in ast.unparse(n.test)]
+    stop = _only(stops, '`if <esize test>: break` in from_fileobj')
+    add('zeroSizeStops', ['esize'], 'Bool', 'decide ' + _Tr({'esize': 'esize'}).cond(stop.test), stop.test)
+    reads = [n for n in loop.body if isinstance(n, ast.Assign) and ast.unparse(n.targets[0]) == 'evalue'
+             and isinstance(n.value, ast.Call) and ast.unparse(n.value.func) == 'fileobj.read']
+    rd = _only(reads, '`evalue = fileobj.read(...)` in from_fileobj')
+    arg = _only(rd.value.args, 'argument of fileobj.read')
+    if isinstance(arg, ast.Call) and ast.unparse(arg.func) == 'int' and len(arg.args) == 1:
+        arg = arg.args[0]
+    add('readCount', ['esize'], 'Int', _Tr({'esize': 'esize'}).expr(arg), rd)
+    chks = [n for n in loop.body if isinstance(n, ast.If) and 'len(evalue)' in ast.unparse(n.test)]
+    chk = _only(chks, 'length check of evalue in from_fileobj')
+    if not (isinstance(chk.test, ast.UnaryOp) and isinstance(chk.test.op, ast.Not)
+            and _raises(chk.body, 'HeaderDataError') and not chk.orelse):
+        raise Untranslatable('length check of evalue is not `if not <test>: raise HeaderDataError(...)`')
+    add('contentLenOk', ['got', 'esize'], 'Bool',
+        'decide ' + _Tr({'len(evalue)': 'got', 'esize': 'esize'}).cond(chk.test.operand), chk.test)
+    augs = [n for n in loop.body if isinstance(n, ast.AugAssign) and ast.unparse(n.target) == 'size']
+    aug = _only(augs, 'augmented assignment to size in from_fileobj')
+    if not isinstance(aug.op, ast.Sub):
+        raise Untranslatable('size is not updated with -=')
+    add('sizeAfter', ['size', 'esize'], 'Int', f"(size - {_Tr({'esize': 'esize'}).expr(aug.value)})", aug)
+    # ---- Nifti1Header.from_fileobj
+    fn = _fn_ast(nifti1.Nifti1Header.from_fileobj.__func__)
+    asg = _only([n for n in ast.walk(fn) if isinstance(n, ast.Assign) and ast.unparse(n.targets[0]) == 'extsize'
+                 and _Tr().lit(n.value) is None], 'computed extsize in Nifti1Header.from_fileobj')
+    add('extSize', ['vox_offset', 'tell'], 'Int',
+        _Tr({"hdr._structarr['vox_offset']": 'vox_offset', 'fileobj.tell()': 'tell'}).expr(asg.value), asg)
+    # ---- Nifti1Header.write_to
+    fn = _fn_ast(nifti1.Nifti1Header.write_to)
+    top = fn.body[0]
+    if not (isinstance(top, ast.If) and ast.unparse(top.test) == 'self.is_single' and not top.orelse):
+        raise Untranslatable('Nifti1Header.write_to does not start with `if self.is_single:`')
+    if not (len(top.body) == 3 and ast.unparse(top.body[0]) == "vox_offset = self._structarr['vox_offset']"
+            and isinstance(top.body[1], ast.Assign) and ast.unparse(top.body[1].targets[0]) == 'min_vox_offset'
+            and isinstance(top.body[2], ast.If)):
+        raise Untranslatable('offset rule of Nifti1Header.write_to has an unexpected shape')
+    add('minVoxOffset', ['single_vox_offset', 'ext_size'], 'Int',
+        _Tr({'self.single_vox_offset': 'single_vox_offset',
+             'self.extensions.get_sizeondisk()': 'ext_size'}).expr(top.body[1].value), top.body[1])
+    rule = top.body[2]
+    add('offsetUnset', ['vox_offset'], 'Bool', 'decide ' + _Tr({'vox_offset': 'vox_offset'}).cond(rule.test), rule.test)
+    if not (len(rule.orelse) == 1 and isinstance(rule.orelse[0], ast.If) and not rule.orelse[0].orelse
+            and _raises(rule.orelse[0].body, 'HeaderDataError')):
+        raise Untranslatable('`elif <too small>: raise HeaderDataError` missing in Nifti1Header.write_to')
+    small = rule.orelse[0].test
+    add('offsetTooSmall', ['vox_offset', 'min_vox_offset'], 'Bool',
+        'decide ' + _Tr({'vox_offset': 'vox_offset', 'min_vox_offset': 'min_vox_offset'}).cond(small), small)
+    fill = rule.body
+    if not (len(fill) == 3 and ast.unparse(fill[0]) == "self._structarr['vox_offset'] = min_vox_offset"
+            and ast.unparse(fill[1]) == "stored = self._structarr['vox_offset']" and isinstance(fill[2], ast.If)
+            and not fill[2].orelse and len(fill[2].body) == 1
+            and ast.unparse(fill[2].body[0]) ==
+            "self._structarr['vox_offset'] = np.nextafter(stored, stored.dtype.type(np.inf))"):
+        raise Untranslatable('fill-in branch of Nifti1Header.write_to has an unexpected shape')
+    add('storedBelow', ['stored', 'min_vox_offset'], 'Bool',
+        'decide ' + _Tr({'stored': 'stored', 'min_vox_offset': 'min_vox_offset'}).cond(fill[2].test), fill[2].test)
+    # ---- NiftiExtension.write_to
+    fn = _fn_ast(nifti1.NiftiExtension.write_to)
+    pad = _only([n for n in fn.body if isinstance(n, ast.Assign) and ast.unparse(n.targets[0]) == 'pad'],
+                'assignment to pad in NiftiExtension.write_to')
+    add('padBytes', ['extstart', 'rawsize', 'tell'], 'Int',
+        _Tr({'extstart': 'extstart', 'rawsize': 'rawsize', 'fileobj.tell()': 'tell'}).expr(pad.value), pad)
+    return out
+
+
 def regen():
     from nibabel import nifti1, nifti2
     body, ret = translate_sizeondisk()
@@ -235,10 +357,18 @@ def regen():
         rows.append(f'({code}, "{label}")')
     L.append('/-- `nifti1.extension_codes`: (code, label) -/')
     L.append('def extensionCodes : List (Int × String) :=\n  [' + ', '.join(rows) + ']')
-    L += ['', 'end Nb.Gen.C11', '']
+    L += ['', '/-! one-line integer rules of the reader / writer (translate_rules) -/', '']
+    for name, params, typ, rbody, src in translate_rules():
+        if '-/' in src or '/-' in src:
+            raise Untranslatable('comment delimiter in source line ' + src)
+        L.append(f'/-- Python: `{src}` -/')
+        L.append(f'def {name} ' + ' '.join(f'({q} : Int)' for q in params) + f' : {typ} :=\n  {rbody}')
+        L.append('')
+    L += ['end Nb.Gen.C11', '']
     os.makedirs(os.path.dirname(GEN_PATH), exist_ok=True)
     common.write_if_changed(GEN_PATH, '\n'.join(L))
-    return ['Generated.C11.getSizeondisk', 'Generated.C11.header-constants', 'Generated.C11.extensionCodes']
+    return ['Generated.C11.getSizeondisk', 'Generated.C11.header-constants', 'Generated.C11.extensionCodes',
+            'Generated.C11.reader-writer-rules']
 
 
 # =====================================================================================================
@@ -399,7 +529,10 @@ def _build_hist(d):
     aff = np.diag([2.0, 3.0, 4.0, 1.0])
     imgA = kA(arr, aff, hdrA)
     MutExt = _mut_ext_class()
+    late = [bool(st is not None and st.get('append')) for st in steps]
     for (code, fin), step in zip(d['exts'], steps):
+        if step is not None and step.get('append'):
+            continue                                  # appended after the first load, see below
         if step is None:
             ext = nifti1.Nifti1Extension(code, unhx(fin))
         else:
@@ -421,15 +554,18 @@ def _build_hist(d):
         imgB = kA.from_file_map(fm)
     else:
         imgB = imgA
-    if len(imgB.header.extensions) != len(steps):
+    if len(imgB.header.extensions) != len(steps) - sum(late):
         raise RuntimeError('harness: first stage lost extensions')
+    for i, ((code, fin), step) in enumerate(zip(d['exts'], steps)):
+        if late[i]:
+            imgB.header.extensions.insert(i, nifti1.Nifti1Extension(code, unhx(fin)))
     for ext, step in zip(imgB.header.extensions, steps):
-        if step is not None:
+        if step is not None and not step.get('append'):
             if h.get('touch'):
                 ext.get_sizeondisk()                 # an earlier size query must not be remembered
             _apply_edit(mode, ext, step)
     for ext, (code, fin), step in zip(imgB.header.extensions, d['exts'], steps):
-        if step is not None and _mangled_now(ext) != unhx(fin):
+        if step is not None and not step.get('append') and _mangled_now(ext) != unhx(fin):
             raise RuntimeError('harness: edited object does not serialise to the recorded final content')
     if klass is kA and not h['load']:
         img = imgB
@@ -1070,10 +1206,30 @@ def rand_hist_case(rng, tier):
     object), optionally carried to another image class through from_header"""
     from nibabel import nifti1
     from nibabel.cifti2.parse_cifti2 import Cifti2Extension
-    mode = rng.choice(['obj', 'obj', 'obj', 'cifti', 'dicom'])
+    mode = rng.choice(['obj', 'obj', 'obj', 'cifti', 'dicom', 'reload', 'reload'])
     fmt, kind = rng.choice([1, 2]), rng.choice('sssp')
     same = rng.random() < 0.5
     load = True if mode != 'obj' else False
+    if mode == 'reload':
+        # plain two-step history: save, load, insert / append further extensions, (change class), save
+        pre = {'fmt': fmt, 'kind': kind, 'endian': rng.choice('<>')} if same else \
+            {'fmt': rng.choice([1, 2]), 'kind': rng.choice('sp'), 'endian': rng.choice('<>')}
+        endian = pre['endian'] if (pre['fmt'], pre['kind']) == (fmt, kind) else NATIVE
+        exts, steps = [], []
+        for c, hh in rand_exts(rng, _codes_table(), 4):
+            if not -2 ** 31 <= c < 2 ** 31:
+                c = 6
+            if rng.random() < 0.5:
+                exts.append([c, hh])
+                steps.append({'append': True})
+            else:
+                exts.append([c, hx(unhx(hh).rstrip(b'\x00'))])
+                steps.append(None)
+        dh, shape, ddt = rand_data(rng)
+        mn = minimum_offset(fmt, exts)
+        off = rng.choice([0, 0, 0, mn, mn + 16, mn + 48]) if kind == 's' else rng.choice([0, 0, 16, 7])
+        hist = {'mode': mode, 'pre': pre, 'steps': steps, 'load': True, 'touch': False}
+        return mk_img(fmt, kind, endian, off, dh, exts, shape, ddt, 'fm', 'hist', None, hist)
     if same:
         pre = {'fmt': fmt, 'kind': kind, 'endian': rng.choice('<>')}
         # a loaded header handed to a new image of the same class keeps its byte order (header.copy())
@@ -1228,6 +1384,22 @@ def cases(rng, tier):
                 if n % 4 == 0 or tier == 'thorough':
                     out.append(mk_img(fmt, 'p', endian, 0, '0102030405', [[4, hx(b)], [40, hx(b[:n // 2] + b'\0')]],
                                       (5,), 'u1', 'fm', 'sweep'))
+    # ---- systematic: the LAST extension occupies exactly 16 bytes (content 0..8) so that exactly 16 bytes are left
+    #      before vox_offset when the reader reaches it; x format x single/pair x BOTH byte orders (the non-native
+    #      one with >= 1 extension) x 0..2 extensions in front x tight offset / one and two spare 16-byte blocks
+    for n in range(0, 10):
+        for fmt in (1, 2):
+            for kind in 'sp':
+                for endian in '<>':
+                    for front in range(0, 3):
+                        if tier == 'quick' and front == 2 and n % 2:
+                            continue
+                        b = bytes((11 * i + n) % 255 + 1 for i in range(n))
+                        exts = [[[6, 99, 4][j], hx(bytes((5 * i + j) % 251 + 1 for i in range(3 + 13 * j)))]
+                                for j in range(front)] + [[44 if n % 2 else 9998, hx(b)]]
+                        mn = minimum_offset(fmt, exts)
+                        for off in ((0, mn, mn + 16, mn + 32) if kind == 's' else (0, 16)):
+                            out.append(mk_img(fmt, kind, endian, off, '0102030405', exts, (5,), 'u1', 'fm', 'tail16'))
     # ---- histories: object extensions edited in place before the save, header carried across image classes
     for _ in range({'quick': 250, 'thorough': 4000, 'search': 1200}[tier]):
         out.append(rand_hist_case(rng, tier))
